@@ -32,9 +32,16 @@ import (
 )
 
 type typedPkg struct {
-	New   func(cb func(ctx context.Context, op string, args []any, res any) error, ne func(ctx context.Context, err error, res any), fill func(any), hc ht.Client, mws ...middleware.Middleware) (http.Handler, any, error)
-	Impls map[string][]reflect.Type
-	Ops   []string
+	New      func(cb func(ctx context.Context, op string, args []any, res any) error, ne func(ctx context.Context, err error, res any), fill func(any), hc ht.Client, mws ...middleware.Middleware) (http.Handler, any, any, error)
+	Impls    map[string][]reflect.Type
+	Ops      []string
+	Webhooks map[string]string // webhook operation -> webhook name
+}
+
+// typedClients is what a typed scenario calls: the client, and the webhook client if the package has one.
+type typedClients struct {
+	api, webhook any
+	webhooks     map[string]string
 }
 
 // ---------------------------------------------------------------- trees
@@ -1128,10 +1135,23 @@ func secondMiddleware(req middleware.Request, next middleware.Next) (middleware.
 }
 
 // doTyped performs one typed call.
-func doTyped(ctx context.Context, cl any, impls map[string][]reflect.Type, rec *CallRecord) {
+func doTyped(ctx context.Context, cls *typedClients, impls map[string][]reflect.Type, rec *CallRecord) {
 	c := rec.Call
 	tr := rec.T
-	m := reflect.ValueOf(cl).MethodByName(c.TOp)
+	var m reflect.Value
+	first := 1
+	var target string
+	if name, ok := strings.CutPrefix(c.TOp, "~"); ok {
+		// a webhook: the generated WebhookClient sends it to a target URL, where the generated WebhookServer's
+		// handler for that webhook listens
+		if cls.webhook != nil && cls.webhooks[name] != "" {
+			m = reflect.ValueOf(cls.webhook).MethodByName(name)
+			target = "http://sim.test/__wh/" + cls.webhooks[name]
+			first = 2
+		}
+	} else {
+		m = reflect.ValueOf(cls.api).MethodByName(c.TOp)
+	}
 	if !m.IsValid() {
 		tr.Harness = "no client method " + c.TOp
 		rec.Returned = true
@@ -1140,11 +1160,14 @@ func doTyped(ctx context.Context, cl any, impls map[string][]reflect.Type, rec *
 	mt := m.Type()
 	g := &vgen{r: vrng{s: c.V}, edge: c.Edge, impls: impls, small: c.V&1 == 0, op: c.TOp}
 	in := []reflect.Value{reflect.ValueOf(ctx)}
+	if first == 2 {
+		in = append(in, reflect.ValueOf(target))
+	}
 	n := mt.NumIn()
 	if mt.IsVariadic() {
 		n--
 	}
-	for i := 1; i < n; i++ {
+	for i := first; i < n; i++ {
 		g.params = strings.HasSuffix(mt.In(i).Name(), "Params")
 		v := g.top(mt.In(i))
 		if mt.In(i).Kind() == reflect.Interface && v.IsNil() {
@@ -1261,7 +1284,7 @@ func (r *CallRecord) sealTyped(pkg string) {
 		if ts.mw2Op != "" && ts.mw2Op != r.Sides0Op(i) {
 			add(fmt.Sprintf("request/second middleware saw operation %s, first saw %s (delivery %d)", ts.mw2Op, r.Sides0Op(i), i))
 		}
-		if ts.Op != r.Call.TOp {
+		if ts.Op != strings.TrimPrefix(r.Call.TOp, "~") {
 			add(fmt.Sprintf("request/operation %s was called, handler %s ran (delivery %d)", r.Call.TOp, ts.Op, i))
 		}
 	}
